@@ -596,9 +596,11 @@ def embed(ctx, spec, hist, mode, seed):
         if how == 'nlbgs':
             prob.model.nonlinear_solver = om.NonlinearBlockGS(maxiter=12, atol=1e-12, rtol=1e-12, iprint=-1)
         elif nosub:
-            nl = prob.model.nonlinear_solver = om.NewtonSolver(solve_subsystems=False, maxiter=30, atol=1e-13,
-                                                               rtol=1e-13, iprint=-1)
-            nl.linear_solver = om.DirectSolver()
+            # (Newton takes its steps with the group's LinearBlockGS as well: a DirectSolver owned by Newton next
+            # to a LinearBlockGS on the group gives wrong rev totals for any cycle - core defect outside C26,
+            # scratch/triage/C26/repro-s3.py)
+            prob.model.nonlinear_solver = om.NewtonSolver(solve_subsystems=False, maxiter=30, atol=1e-13,
+                                                          rtol=1e-13, iprint=-1)
             how = 'newton-nosub'
         else:
             prob.model.nonlinear_solver = om.NewtonSolver(solve_subsystems=True, maxiter=8, atol=1e-12,
@@ -640,6 +642,10 @@ def embed(ctx, spec, hist, mode, seed):
         acc.count('hist:embed-' + how)
         acc.count('hist:embed-executions', max(int(nexec), 1))
         judge_state(ctx, 'embed-' + how, prob, comp, spec, cur, mode, seed + 2000, fb=fb, band=band)
+    except Exception as e:
+        if str(e).startswith('harness:'):
+            raise
+        ctx.viol('embed-%s:raises:%s' % (how, type(e).__name__), '%s: %s' % (type(e).__name__, str(e)[:300]))
     finally:
         _cleanup(prob)
 
